@@ -1516,10 +1516,13 @@ def replay(ctx, data):
     res = run_real(case)
     print("kind:", res["kind"])
     print("initial:", res["dump0"])
-    for o, (st, d) in zip(res["ops"], res["steps"]):
+    print("   position (left;top;right;bottom;offset;size;bbox):", res["pos"][0])
+    for o, (st, d), ps in zip(res["ops"], res["steps"], res["pos"][1:]):
         print(op_str(o)[:80], "->", st, d)
+        print("   position:", ps)
     print("save:", res["save"], res.get("save_exc", ""))
     if "reopened" in res:
         print("reopened:", res["reopened"])
+        print("   position:", res.get("pos_reopened"))
     print("expected:", data.get("expected"))
     return 0
